@@ -65,7 +65,12 @@ fn ops() -> Vec<Op> {
 }
 
 fn vals_of_call(cc: &Covercrypt, msk: &Mutex<MasterSecretKey>, mpk: &MasterPublicKey, k: usize, out: &mut Vec<String>) -> Result<(), String> {
-    match k % 6 {
+    match k % 7 {
+        6 => { let m = msk.lock().unwrap(); let cur = m.mpk().map_err(|e| e.to_string())?;
+            let (s0, e0) = cc.encaps(&cur, &ap("D::a")).map_err(|e| e.to_string())?; let b0 = e0.serialize().unwrap();
+            out.push(format!("VAL secret {}", hex(&*s0))); out.push(format!("VAL tag {}", hex(&b0[..16])));
+            for _ in 0..2 { let (s, e) = cc.recaps(&m, &cur, &e0).map_err(|e| e.to_string())?; let b = e.serialize().unwrap();
+                out.push(format!("VAL secret {}", hex(&*s))); out.push(format!("VAL tag {}", hex(&b[..16]))); out.push(format!("VAL trap {}", hex(&b[17..17 + PT]))); } }
         0 => { let (s, e) = cc.encaps(mpk, &ap("D::a")).map_err(|e| e.to_string())?; let b = e.serialize().unwrap();
             out.push(format!("VAL secret {}", hex(&*s))); out.push(format!("VAL tag {}", hex(&b[..16]))); out.push(format!("VAL trap {}", hex(&b[17..17 + PT]))); }
         1 => { let c = <Covercrypt as PkeAc<32, Aes256Gcm>>::encrypt(cc, mpk, &ap("D::a"), b"same plaintext").map_err(|e| e.to_string())?;
@@ -135,7 +140,7 @@ fn main() {
                         let msk = Mutex::new(msk);
                         let mut out = vec![]; let mut errs = vec![];
                         for k in 0..n {
-                            let kk = if stress { k + ti } else { k % 5 };
+                            let kk = if stress { k + ti } else { [0, 1, 2, 3, 4, 6][k % 6] };
                             // own master key per thread for the mutating calls (distinct key objects), shared instance
                             if let Err(e) = vals_of_call(&cc, &msk, &mpk, kk, &mut out) { errs.push(e); }
                         }
